@@ -1,3 +1,8 @@
 import XProofs.Clip
 import XProofs.LeastSquares
 import XProofs.LstsqNormal
+import XProofs.Properties.C01
+import XProofs.Properties.C02
+import XProofs.Properties.C03
+import XProofs.Properties.C17
+import XProofs.Properties.C18
